@@ -42,13 +42,13 @@ def gen_c09_page(rng):
         for _ in range(rng.randint(0, 4)):
             r = rng.random()
             if r < 0.25:
-                ws.append("#" + rng.choice("abc"))
+                ws.append("#" + rng.choice(["a", "b", "c", "ab"]))
             elif r < 0.4:
-                ws.append("@" + rng.choice(["home", "work"]))
+                ws.append("@" + rng.choice(["home", "work", "work_laptop"]))
             elif r < 0.5:
                 ws.append("+" + rng.choice(["p1", "p2", "p10"]))
             elif r < 0.58:
-                ws.append("%" + rng.choice(["bob", "al"]))
+                ws.append("%" + rng.choice(["bob", "al", "bobby"]))
             elif r < 0.68:
                 ws.append("k::" + rng.choice(["v1", "v2", "7"]))
             elif r < 0.74:
@@ -72,7 +72,9 @@ def gen_c09_page(rng):
     for _ in range(rng.randint(2, 5)):
         lvl = rng.randint(1, min(4, prev + 1))
         prev = lvl
-        lines.append(pagegen.RULERS[lvl] + " " + rng.choice(SECTION_TITLES) + rng.choice(["", "", " #sa", " 2024-03-0%d" % rng.randint(1, 9)]))
+        lines.append(pagegen.RULERS[lvl] + " " + rng.choice(SECTION_TITLES) + rng.choice(["", "", " #sa", " 2024-03-0%d" % rng.randint(1, 9),
+                                                    # header tags that are proper prefixes of tags items carry themselves
+                                                    " +p1", " @work", " %bob #a"]))
         lines.append("")
         for _ in range(rng.randint(1, 2)):
             block()
@@ -178,6 +180,31 @@ def spec_checks(q, gs, os_, sel_model, notes, out):
                 if any(len(v) > 1 for v in digits.values()):
                     trig = "order_none_lexicographic"
                 probs.append(("O none = page path then line number", got_text[:200], trig))
+    # value selections (tags, property keys / values, links, files), ungrouped: every distinct value of the selected
+    # notes exactly once; count(...) is the number of those values
+    IDX = {"AREA": 6, "CONTEXT": 7, "PERSON": 8, "PROJECT": 9, "LINKS": 10}
+    sm = sel_model[1] if isinstance(sel_model, list) and sel_model and sel_model[0] == "count" else sel_model
+    counting = isinstance(sel_model, list) and sel_model and sel_model[0] == "count"
+    vals = None
+    if isinstance(sm, str) and sm in IDX:
+        vals = [v for n in notes for v in n[IDX[sm]]]
+    elif sm == "PROPERTY":
+        vals = [k for n in notes for k, _ in n[11]]
+    elif isinstance(sm, list) and sm and sm[0] == "PV":
+        vals = [v for n in notes for k, v in n[11] if k == sm[1]]
+    elif sm == "FILE":
+        vals = [n[0] for n in notes]
+    if vals is not None and not gs:
+        distinct = sorted(set(vals))
+        lines = [l for l in (out.split("\n") if out else []) if l.strip()]
+        if counting:
+            if lines != [str(len(distinct))]:
+                probs.append(("count(...) is the number of distinct selected values", "%r, distinct values: %d" % (lines[:3], len(distinct)), None))
+        elif sm != "LINKS" or True:
+            got = [l.strip() for l in lines]
+            if sorted(got) != distinct and sorted(x.split(":", 1)[-1] if sm == "LINKS" else x for x in got) != sorted(
+                    x.split(":", 1)[-1] if sm == "LINKS" else x for x in distinct):
+                probs.append(("every distinct selected value exactly once", "got %r, distinct values %r" % (got[:12], distinct[:12]), None))
     return probs
 
 
